@@ -12,9 +12,9 @@ import vrun
 from gen import Gen
 from common import cerberus
 
-LEVEL = "exploration"
-COQ_FILES = []
-FACT_GROUPS = []
+LEVEL = "proof"
+COQ_FILES = ["theories/Model/Expand.v", "theories/Model/Accept.v", "theories/Proofs/AcceptProofs.v", "theories/Properties/C04.v"]
+FACT_GROUPS = ["F17"]
 ALLOWED_AXIOMS = []
 TRUSTED_BASE = [
     "Coq 8.16.1 kernel; Print Assumptions: closed under the global context",
@@ -124,6 +124,33 @@ def entry_points(good_schema, cfg, bad_schema, probe):
     return res
 
 
+def encode_accept(schema, cfg):
+    """driver line for the acceptance model: class tables of PoolValidator, registries (as stored = expanded), schema"""
+    out = ["W"]
+    for names in (list(pool.PoolValidator.types), list(pool.PoolValidator.coercers), list(pool.PoolValidator.default_setters),
+                  list(pool.PoolValidator.checkers), [], []):
+        out.append(str(len(names)))
+        out += [common.hx(n) for n in names]
+    rr = cfg.get("rules_set_registry")
+    sr = cfg.get("schema_registry")
+    common.enc_registry(dict(rr.all()) if rr is not None else {}, out)
+    common.enc_registry(dict(sr.all()) if sr is not None else {}, out)
+    common.enc_value(schema, out)
+    return " ".join(out)
+
+
+def real_accepts(schema, cfg):
+    pool.PoolValidator.clear_caches()
+    cerberus.Validator.clear_caches()
+    try:
+        pool.PoolValidator(copy.deepcopy(schema), **copy.deepcopy(cfg))
+        return "accepted"
+    except cerberus.SchemaError:
+        return "rejected"
+    except Exception as e:
+        return "raise:" + type(e).__name__
+
+
 def run(ctx):
     thorough = ctx["tier"] == "thorough"
     n = 4000 if thorough else 220 * ctx.get('scale', 1)
@@ -133,6 +160,7 @@ def run(ctx):
     dist = collections.Counter()
     cases = 0
     distinct = set()
+    model_lines, model_jobs = [], []
     for i in range(n):
         schema = g.schema()
         # check_with somewhere
@@ -156,8 +184,16 @@ def run(ctx):
             continue
         cases += 1
         # (2) single-point corruptions must be rejected with SchemaError through every entry point
+        try:
+            model_lines.append(encode_accept(schema, cfg)); model_jobs.append((schema, cfg, "grammar", "accepted"))
+        except ValueError:
+            pass
         for kind, pkind, bad in corruptions(schema, rng, 3 if not thorough else 8):
             distinct.add(json.dumps(common.jval(bad), sort_keys=True, default=repr))
+            try:
+                model_lines.append(encode_accept(bad, cfg)); model_jobs.append((bad, cfg, kind, None))
+            except ValueError:
+                pass
             for entry, out, damage in entry_points(schema, cfg, bad, probe):
                 cases += 1
                 dist["%s@%s" % (kind.split(":")[0], pkind)] += 1
@@ -197,7 +233,18 @@ def run(ctx):
                 violations.append({"signature": "state:allow_unknown-setter", "what": "allow_unknown changed after a rejected assignment", "replay": rp})
         if i == 2:
             samples.append({"good": common.jval(schema), "bad": common.jval(bad) if 'bad' in dir() else None})
-    return {"violations": violations, "cases": cases, "nontrivial": len(distinct), "model_cases": 0, "disagreements_checked": 0,
+    # the documented grammar (Model/Accept.v after Model/Expand.v) against the real acceptance on a cold cache
+    modelled = 0
+    if ctx["driver_ok"] and model_lines:
+        for (sch, cfg2, kind, _), m in zip(model_jobs, common.run_driver_parallel(model_lines)):
+            real = real_accepts(sch, cfg2)
+            modelled += 1
+            if m.get("r") != real and not (real.startswith("raise") and m.get("r") == "rejected"):
+                sig = "accepted:dangling-reference" if (kind == "dangling-reference" and real == "accepted") else "model-vs-code:acceptance"
+                violations.append({"signature": sig, "what": "documented grammar says %s, the real validator %s (%s)" % (m.get("r"), real, kind),
+                                   "replay": {"good": common.jval(sch), "bad": common.jval(sch), "config": common.jval(cfg2), "entry": "constructor",
+                                              "kind": kind, "position": "?", "probe": {"d": []}}})
+    return {"violations": violations, "cases": cases, "nontrivial": len(distinct), "model_cases": modelled, "disagreements_checked": modelled,
             "samples": samples, "distribution": dict(dist),
             "rule": "grammar schemas (C02 generators + check_with) must be accepted; single-point corruptions (unknown rule, unknown type, wrongly typed "
                     "constraint from a table of 39, normalization rule inside a *of definition, dangling reference) at random rule-set positions of any depth must "
